@@ -57,8 +57,8 @@ def forms_pass(ck, seed: int, per_op: int) -> Dict[str, Any]:
     """C39, differential: every catalogue operator that exists as a method, `per_op` seeded scenarios."""
     from reactivex import Observable
     rnd = random.Random(seed)
-    names = sorted(n for n in cat.CATALOGUE if hasattr(Observable, n))
-    missing = sorted(n for n in cat.CATALOGUE if not hasattr(Observable, n))
+    names = sorted(n for n in cat.CATALOGUE if hasattr(Observable, cat.REAL_NAME.get(n, n)))
+    missing = sorted(n for n in cat.CATALOGUE if not hasattr(Observable, cat.REAL_NAME.get(n, n)))
     specs = [dict(seed=rnd.randrange(10 ** 9), names=[n], hot=rnd.random() < 0.5) for n in names for _ in range(per_op)]
     res = core.parallel_map(_forms_job, specs, procs=10, chunk=40)
     compared, traces, skipped = 0, [], 0
@@ -165,3 +165,70 @@ def resub_pass(ck, seed: int, per_op: int) -> Dict[str, Any]:
     ck.impl += compared
     return {"operators": names, "excluded_multicasting": sorted(MULTICAST), "excluded_stateful_callbacks": sorted(NONDET),
             "scenario_pairs_compared": compared, "skipped": skipped}
+
+
+# ---- connectable forms: fluent method vs piped operator, two subscribers (one of them late) -----------------------
+CONN_FORMS = {
+    # name -> builder(ctx) -> (args, kwargs); every result is a ConnectableObservable turned into an observable by ref_count
+    "publish": lambda c: ((), {}),
+    "publish_value": lambda c: ((c.rnd.choice([None, 0, 7]),), {}),
+    "replay": lambda c: ((c.rnd.choice([None, 1, 2]),), {}),
+    "replay_window": lambda c: ((c.rnd.choice([None, 2]), c.rnd.choice([8, 15, 30])), {"scheduler": c.s}),
+    "replay_window_kw": lambda c: ((), {"buffer_size": c.rnd.choice([1, 3]), "window": c.rnd.choice([8, 15]), "scheduler": c.s}),
+    "multicast": lambda c: ((), {"subject": __import__("reactivex").subject.ReplaySubject(2, scheduler=c.s)}),
+}
+_CONN_REAL = {"replay_window": "replay", "replay_window_kw": "replay"}
+
+
+def _conn_job(spec):
+    """same seeded scenario through source.<op>(...) and source.pipe(ops.<op>(...)), connected with ref_count();
+    one subscriber at 200, a late one at 200 + late: both subscribers' streams must be identical in the two forms"""
+    from reactivex import operators as ops
+    out = {}
+    for form in ("pipe", "fluent"):
+        ctx = cat.Ctx(spec["seed"], None, True)
+        s = ctx.s
+        xs = ctx.source("num", "main", hot=True, maxlen=4, span=80)
+        name = spec["name"]
+        args, kwargs = CONN_FORMS[name](ctx)
+        rn = _CONN_REAL.get(name, name)
+        try:
+            conn = getattr(xs, rn)(*args, **kwargs) if form == "fluent" else xs.pipe(getattr(ops, rn)(*args, **kwargs))
+            ys = conn.pipe(ops.ref_count())
+        except TypeError as e:
+            out[form] = ("signature", str(e)[:120])
+            continue
+        logs = [[], []]
+
+        def sub(k):
+            def go(_s=None, _st=None):
+                ys.subscribe(on_next=lambda v: logs[k].append(("N", lc._show(v), s.clock)),
+                             on_error=lambda e: logs[k].append(("E", type(e).__name__, s.clock)),
+                             on_completed=lambda: logs[k].append(("C", "", s.clock)), scheduler=s)
+            return go
+        s.schedule_absolute(200, sub(0))
+        s.schedule_absolute(200 + spec["late"], sub(1))
+        try:
+            s.advance_to(1000)
+        except Exception as e:
+            out[form] = ("raised", type(e).__name__)
+            continue
+        out[form] = ("ok", logs, [(x.subscribe, x.unsubscribe) for x in xs.subscriptions])
+    return spec, out
+
+
+def conn_forms_pass(ck, seed: int, per_op: int) -> Dict[str, Any]:
+    rnd = random.Random(seed)
+    specs = [dict(seed=rnd.randrange(10 ** 9), name=n, late=rnd.choice([12, 25, 40, 55])) for n in CONN_FORMS for _ in range(per_op)]
+    compared = 0
+    for spec, out in map(_conn_job, specs):
+        p, f = out.get("pipe"), out.get("fluent")
+        if p is None or p[0] != "ok":
+            continue
+        compared += 1
+        if f[0] != "ok" or f[1:] != p[1:]:
+            ck.fail({"engine": "forms-diff", "op": _CONN_REAL.get(spec["name"], spec["name"]), "spec": spec,
+                     "failure": "signature" if f[0] == "signature" else "forms_differ",
+                     "why": f"fluent {f[0]}: {str(f[1:])[:400]} vs piped {str(p[1:])[:400]}", "reason_kind": "forms_differ", "conn": True})
+    ck.impl += compared
+    return {"connectable_forms": sorted(CONN_FORMS), "scenario_pairs_compared": compared}
